@@ -127,12 +127,23 @@ HARNESS_DIR = os.path.join(VERIF, 'harness')
 
 
 def _raised_in_harness(e):
+    """True when the HARNESS failed to reach an auxiliary name: the exception was raised in a harness frame and
+    what is missing is a module-level name (a helper function / private module a rewrite may move or rename) or
+    a private attribute.  A missing PUBLIC attribute of a library object or class is the library's API changing
+    under a property — an ordinary outcome (`py:AttributeError`), compared like any other (docs/AUDIT-4.md m25)."""
     tb = e.__traceback__
     last = None
     while tb is not None:
         last = tb
         tb = tb.tb_next
-    return last is not None and last.tb_frame.f_code.co_filename.startswith(HARNESS_DIR)
+    if last is None or not last.tb_frame.f_code.co_filename.startswith(HARNESS_DIR):
+        return False
+    if isinstance(e, AttributeError):
+        import types
+        name = getattr(e, 'name', None) or ''
+        obj = getattr(e, 'obj', None)
+        return isinstance(obj, types.ModuleType) or name.startswith('_')
+    return True
 
 
 def unobservable(impl_out):
